@@ -86,6 +86,69 @@ theorem C08_mix_plscf_cert (Nch Nref Nf n : Nat) (hi : Bool) (Om : Nat → Plscf
     apply Finset.sum_congr rfl; intro p _
     apply Finset.sum_congr rfl; intro b _; ring
 
+/-- **Orthogonal mixing, `rmfd2ac` (record transport).**  Coefficients related as in `C08_mix_plscf_cert`
+    (`alpha' = (I⊗Q)·alpha·Qᵀ`, `beta' = R·beta·Qᵀ` on the arrays).  For every exact record `P` of the solves
+    `np.linalg.solve(Ad_last, Adi)` of the original run, the conjugated record `Q·P_k·Qᵀ` is an exact record for the mixed
+    coefficients; with it the state matrix is `(I⊗Q)·A·(I⊗Q)ᵀ` and the output matrix is `R·C·(I⊗Q)ᵀ`. -/
+theorem C08_mix_plscf_rmfd (Nch Nref n : Nat) (hN : 0 < Nch) (R Q : Nat → Nat → K) (hQ : OrthoOn Nch Q)
+    (α α' : Nat → Nat → K) (β β' : Nat → Nat → Nat → K)
+    (hα : ∀ I, I < (n + 1) * Nch → ∀ c, c < Nch → α' I c = mixAlpha Nch Q α I c)
+    (hβ : ∀ o, o < Nref → ∀ t, t < n + 1 → ∀ c, c < Nch → β' o t c = mixBeta Nref Nch R Q β o t c)
+    (P : Nat → Nat → Nat → K) (A C : Mat K) (h : RmfdCert Nch Nref n α β P A C) :
+    ∃ A' C', RmfdCert Nch Nref n α' β' (mixP Nch Q P) A' C' ∧
+      A'.r = (n + 1) * Nch ∧ A'.c = (n + 1) * Nch ∧ C'.r = Nref ∧ C'.c = (n + 1) * Nch ∧
+      (∀ i j, A'.e i j = ∑ a ∈ range Nch, ∑ b ∈ range Nch, Q (i % Nch) a * Q (j % Nch) b
+          * A.e (i / Nch * Nch + a) (j / Nch * Nch + b)) ∧
+      (∀ o, o < Nref → ∀ j, C'.e o j
+        = ∑ p ∈ range Nref, R o p * ∑ q ∈ range Nch, Q (j % Nch) q * C.e p (j / Nch * Nch + q)) := by
+  obtain ⟨h1, h2, h3⟩ := h.mix hN R (Orth2.of_cols hQ) hα hβ
+  refine ⟨_, _, h1, rfl, rfl, rfl, rfl, ?_, ?_⟩
+  · intro i j; rw [h2 i j]; simp only [bmix2, sumTo_eq]
+  · intro o ho j; rw [h3 o ho j]; simp only [rmix_eq, bmix_eq]
+
+/-- **Orthogonal mixing: the same poles, the raw shapes mixed by `R`.**  What the model certifies for `Sy` — a returned
+    order (`OrderCert`) and the records of `rmfd2ac` on its coefficients (`RmfdCert`, state matrix `A`, output matrix `C`) —
+    gives for the mixed array `R·Sy·Qᵀ` a certified order (`mixOut`) and certified `rmfd2ac` records on ITS coefficients with
+    state matrix `A' = (I⊗Q)·A·(I⊗Q)ᵀ` and output matrix `C' = R·C·(I⊗Q)ᵀ` such that
+    * `A'` and `A` have the same characteristic polynomial — the same poles with the same multiplicities; a recorded list of
+      eigenvalues satisfying C05's contract of `np.linalg.eig` for `A` (its multiset, embedded in an extension `L ∋ I`, is the
+      multiset of roots of the characteristic polynomial) satisfies it, with the eigenvectors transported, for `A'`;
+    * every recorded eigenpair `(λ, q)` of `A` gives the eigenpair `(λ, (I⊗Q)·q)` of `A'`;
+    * the raw shapes before normalisation are mixed by `R`: `C'·((I⊗Q)·q) = R·(C·q)` (for the square array `Q·(C·q)`). -/
+theorem C08_mix_plscf_poles (Nch Nref Nf n : Nat) (hi : Bool) (Om : Nat → Plscf.Cx K)
+    (Sy : Nat → Nat → Nat → Plscf.Cx K) (out : OrderOut K) (X : Nat → Nat → Nat → K) (Z : Nat → Nat → K)
+    (h : OrderCert Nch Nref Nf n hi Om Sy out X Z) (hN : 0 < Nch) (R Q : Nat → Nat → K)
+    (hQ : OrthoOn Nch Q) (hR : OrthoOn Nref R)
+    (P : Nat → Nat → Nat → K) (A C : Mat K) (hac : RmfdCert Nch Nref n out.alpha out.beta P A C) :
+    ∃ A' C', OrderCert Nch Nref Nf n hi Om (mixSy Nref Nch R Q Sy) (mixOut Nch Nref n hi R Q out Z)
+        (mixX Nref Nch R Q X) (mixAlpha Nch Q Z) ∧
+      RmfdCert Nch Nref n (mixOut Nch Nref n hi R Q out Z).alpha (mixOut Nch Nref n hi R Q out Z).beta
+        (mixP Nch Q P) A' C' ∧
+      (toMx ((n + 1) * Nch) ((n + 1) * Nch) A'.e).charpoly
+        = (toMx ((n + 1) * Nch) ((n + 1) * Nch) A.e).charpoly ∧
+      (∀ {L : Type} [Field L] (f : K →+* L) (I : L) (eigs : List (EigIn K)),
+        Multiset.map (fun e => emb f I e.lamd) (eigs : Multiset (EigIn K))
+          = ((toMx ((n + 1) * Nch) ((n + 1) * Nch) A.e).charpoly.map f).roots →
+        Multiset.map (fun e => emb f I e.lamd)
+            ((eigs.map (mixEig Nch ((n + 1) * Nch) Q) : List (EigIn K)) : Multiset (EigIn K))
+          = ((toMx ((n + 1) * Nch) ((n + 1) * Nch) A'.e).charpoly.map f).roots) ∧
+      (∀ e : EigIn K, EigPair ((n + 1) * Nch) A.e e →
+        EigPair ((n + 1) * Nch) A'.e (mixEig Nch ((n + 1) * Nch) Q e)) ∧
+      (∀ q : List (Plscf.Cx K), phiRaw C' (bmixL Nch ((n + 1) * Nch) Q q) = rmixL Nref R (phiRaw C q)) := by
+  have hQ2 := Orth2.of_cols hQ
+  obtain ⟨c1, hα⟩ := PV.Cov.OrderCert.mix h hN hQ2 hR
+  obtain ⟨r1, hA, hC⟩ := hac.mix hN R hQ2 hα (fun _ _ _ _ _ _ => rfl)
+  have hcp := charpoly_mix (nb := n + 1) Q hQ2.rows A.e _ (fun i _ j _ => hA i j)
+  refine ⟨_, _, c1, r1, hcp, ?_, ?_, ?_⟩
+  · intro L _ f I eigs hrec
+    rw [hcp, ← hrec, ← Multiset.map_coe, Multiset.map_map]
+    rfl
+  · intro e he
+    exact he.mix Q hQ (fun i _ j _ => hA i j)
+  · intro q
+    have hCd : C.r = Nref ∧ C.c = (n + 1) * Nch := by rw [hac.hC]; exact ⟨rfl, rfl⟩
+    exact phiRaw_mix (nb := n + 1) Q R hQ C _ hCd.1 rfl hCd.2 rfl (fun o ho j _ => hC o ho j) q
+
 end mix_plscf
 
 /-! ## non-vacuity: two channels rotated by the Pythagorean angle `cos = 3/5`, `sin = 4/5`; order 1, three lines
@@ -110,6 +173,20 @@ example : True := by
   obtain ⟨X, Z, cert⟩ := plscfOrder_sound 2 2 3 1 false exOm pSy out h
   have := C08_mix_plscf_cert 2 2 3 1 false exOm pSy out X Z cert (by decide) rotQ rotQ rotQ_ortho rotQ_ortho
   trivial
+
+-- ... and `rmfd2ac` returns on its coefficients: the whole chain of hypotheses of `C08_mix_plscf_rmfd` / `_poles` holds
+example : True := by
+  obtain ⟨out, _, A, C, _, _, h, _, _, _, hac, _⟩ := ex_perm_runs
+  obtain ⟨X, Z, cert⟩ := plscfOrder_sound 2 2 3 1 false exOm pSy out h
+  obtain ⟨P, rc⟩ := rmfd2ac_cert 2 2 1 out.alpha out.beta A C hac
+  have := C08_mix_plscf_rmfd 2 2 1 (by decide) rotQ rotQ rotQ_ortho out.alpha (mixAlpha 2 rotQ out.alpha) out.beta
+    (mixBeta 2 2 rotQ rotQ out.beta) (fun _ _ _ _ => rfl) (fun _ _ _ _ _ _ => rfl) P A C rc
+  have := C08_mix_plscf_poles 2 2 3 1 false exOm pSy out X Z cert (by decide) rotQ rotQ rotQ_ortho rotQ_ortho P A C rc
+  trivial
+
+-- the model itself returns for the rotated array as well (so "two runs" is a non-empty situation)
+example : ((plscfOrder 2 2 3 1 false exOm (mixSy 2 2 rotQ rotQ pSy)).bind fun out' =>
+    (rmfd2ac (adOf 2 1 out'.alpha) (bnOf 2 2 1 out'.beta)).map fun _ => true) = some true := by decide +kernel
 
 end examples
 
